@@ -268,6 +268,7 @@ fn main() {
     let single = a.kv.get("choices").map(|c| parse_choices(c));
     for i in 0..runs {
         let seed = if a.kv.contains_key("seedx") { a.num("seedx", 0) } else { seed0.wrapping_mul(1_000_003).wrapping_add(i) };
+        mark_run(seed);
         let n = [2usize, 4, 8][(i % 3) as usize];
         let (o, viol, cfgkey, _) = match (kind.as_str(), n) {
             ("atomic", 2) => run_one::<AllocatorAtomicArray<Tracked, 2>, 2>(seed, single.clone()),
